@@ -9,7 +9,7 @@ func propSpecs() map[string]*PropSpec {
 	add := func(p *PropSpec) { m[p.ID] = p }
 	seeds := func(h string, n int64) []RunSpec {
 		var r []RunSpec
-		for i := int64(0); i < 12; i++ {
+		for i := int64(0); i < 18; i++ {
 			r = append(r, rs(h, i, n))
 		}
 		return r
@@ -84,10 +84,10 @@ func propSpecs() map[string]*PropSpec {
 	})
 	add(&PropSpec{
 		ID: "C15", Title: "statement splitting agrees with the lexer and loses nothing",
-		Quick:    append([]RunSpec{rs("H_C15", 0, 0), rs("H_C15", 1, 0), rs("H_C15", 2, 0), rs("H_C15", 3, 0), rs("H_C15", 5, 5), rs("H_C15", 5, 7)}, tokRuns("H_C15tok", 5, 0)...),
-		Thorough: append([]RunSpec{rs("H_C15", 0, 0), rs("H_C15", 1, 0), rs("H_C15", 2, 0), rs("H_C15", 3, 0), rs("H_C15", 4, 0), rs("H_C15", 7, 5), rs("H_C15", 6, 7)}, tokRuns("H_C15tok", 6, 0)...),
+		Quick:    append([]RunSpec{rs("H_C15", 0, 0), rs("H_C15", 1, 0), rs("H_C15", 2, 0), rs("H_C15", 3, 0), rs("H_C15", 5, 10), rs("H_C15", 5, 11), rs("H_C15", 5, 5), rs("H_C15", 5, 7)}, tokRuns("H_C15tok", 5, 0)...),
+		Thorough: append([]RunSpec{rs("H_C15", 0, 0), rs("H_C15", 1, 0), rs("H_C15", 2, 0), rs("H_C15", 3, 0), rs("H_C15", 4, 0), rs("H_C15", 6, 10), rs("H_C15", 6, 11), rs("H_C15", 7, 5), rs("H_C15", 6, 7)}, tokRuns("H_C15tok", 6, 0)...),
 		Covers:   []string{"has-semicolon-token", "semicolon-inside-token-or-comment", "parsed", "two-statements"},
-		Bounds: map[string]string{"quick": "all byte strings of length <= 3 (full byte range); length <= 5 over the alphabets {; ' \" ` / \\ newline a 1 = space} and {; ( ) [ ] | a 1 , ' space}; all token sequences of length <= 5 (statement count vs semicolon tokens)",
+		Bounds: map[string]string{"quick": "all byte strings of length <= 3 (full byte range); length <= 5 over the alphabets {; ' \" ` / \\ newline a 1 = space}, {; ( ) [ ] | a 1 , ' space}, {1 e + - . ; x space} and {; ' / CR newline space a}; all token sequences of length <= 5 (statement count vs semicolon tokens)",
 			"thorough": "all byte strings of length <= 4; focused alphabets <= 7 / <= 6; token sequences <= 6"},
 		Outside: []string{"sources longer than the bound", "the command-line consumer (C16)"},
 		Stubs:   []string{"unicode.IsSpace -> models.IsSpace", "utf8 decode: engine model", "strings.{TrimLeft,ReplaceAll} -> models"},
@@ -97,7 +97,7 @@ func propSpecs() map[string]*PropSpec {
 		Quick:    append(tokRuns("H_C08", 6, 0), seeds("H_C08seed", 1)...),
 		Thorough: append(append(tokRuns("H_C08", 7, 0), seeds("H_C08seed", 1)...), seeds("H_C08seed", 2)...),
 		Covers:   []string{"accepted", "rejected"},
-		Bounds: map[string]string{"quick": "all token sequences of length <= 6 over the full 78-lexeme vocabulary (error lexemes included); 12 seed programs of 6-22 tokens with one arbitrary corruption (delete / insert arbitrary token / replace by arbitrary token / duplicate / transpose / truncate at an arbitrary position)",
+		Bounds: map[string]string{"quick": "all token sequences of length <= 6 over the full 78-lexeme vocabulary (error lexemes included); 18 seed programs of 6-30 tokens with one arbitrary corruption (delete / insert arbitrary token / replace by arbitrary token / duplicate / transpose / truncate at an arbitrary position)",
 			"thorough": "all token sequences of length <= 7; seeds with one and two corruptions"},
 		Outside: []string{"longer uncorrupted token soups", "lexeme-internal corruption (C09 covers the lexer)"},
 		Stubs:   []string{tokStub},
@@ -107,7 +107,7 @@ func propSpecs() map[string]*PropSpec {
 		Quick:    append(append(append(tokRuns("H_C10", 5, 0), seeds("H_C10seed", 1)...), tokRuns("H_C10err", 4, 0)...), append(seeds("H_C10errseed", 1), rs("H_C10tab", 0), rs("H_C10tab", 1), rs("H_C10tab", 2), rs("H_C10tab", 3), rs("H_C10tab", 4))...),
 		Thorough: append(append(append(append(tokRuns("H_C10", 6, 0), seeds("H_C10seed", 1)...), seeds("H_C10seed", 2)...), tokRuns("H_C10err", 5, 0)...), append(seeds("H_C10errseed", 2), rs("H_C10tab", 0), rs("H_C10tab", 1), rs("H_C10tab", 2), rs("H_C10tab", 3), rs("H_C10tab", 4))...),
 		Covers:   []string{"accepted", "rejected", "spans-checked", "partial-tree", "position-checked", "compile-error-message"},
-		Bounds: map[string]string{"quick": "success part: all accepted token sequences of length <= 5 over the full vocabulary and 12 seed programs with one arbitrary corruption; failure part: all rejected token sequences of length <= 4 and the rejected corruptions of the seeds: every span of the partial tree (fields and Span() of every node) and every line:column prefix of the parse and compile error messages; 5 failing programs with two gaps of 2 arbitrary bytes over {space, tab, newline} (tab stops)",
+		Bounds: map[string]string{"quick": "success part: all accepted token sequences of length <= 5 over the full vocabulary and 18 seed programs with one arbitrary corruption; failure part: all rejected token sequences of length <= 4 and the rejected corruptions of the seeds: every span of the partial tree (fields and Span() of every node) and every line:column prefix of the parse and compile error messages; 5 failing programs with two gaps of 2 arbitrary bytes over {space, tab, newline} (tab stops)",
 			"thorough": "success <= 6, failure <= 5, seeds with one and two corruptions"},
 		Outside: []string{"multi-byte layout between tokens inside token slots (token spans themselves are C09's subject)", "error messages for byte-level garbage (their texts quote symbolic runes and are opaque to the engine)"},
 		Stubs:   []string{tokStub},
@@ -117,7 +117,7 @@ func propSpecs() map[string]*PropSpec {
 		Quick:    append(tokRuns("H_C11", 5, 0), seeds("H_C11seed", 1)...),
 		Thorough: append(append(tokRuns("H_C11", 6, 0), seeds("H_C11seed", 1)...), seeds("H_C11seed", 2)...),
 		Covers:   []string{"accepted", "walk-checked", "skip-checked"},
-		Bounds: map[string]string{"quick": "all accepted token sequences of length <= 5 over the full vocabulary; 12 seed programs with one arbitrary corruption; the skipped node index is arbitrary",
+		Bounds: map[string]string{"quick": "all accepted token sequences of length <= 5 over the full vocabulary; 18 seed programs with one arbitrary corruption; the skipped node index is arbitrary",
 			"thorough": "length <= 6; seeds with one and two corruptions"},
 		Outside: []string{"trees deeper than the bounded programs produce"},
 		Stubs:   []string{tokStub},
@@ -134,7 +134,7 @@ func propSpecs() map[string]*PropSpec {
 			}
 		}
 		for c := int64(0); c <= nCorrupt; c++ {
-			for i := int64(0); i < 28; i++ {
+			for i := int64(0); i < 34; i++ {
 				r = append(r, rs("H_C07seed", i, c))
 			}
 		}
@@ -148,7 +148,7 @@ func propSpecs() map[string]*PropSpec {
 		Quick:    c07(5, 3, 1, 8),
 		Thorough: c07(6, 5, 2, 20),
 		Covers:   []string{"in-grammar", "not-in-grammar", "layout-checked", "synonyms"},
-		Bounds: map[string]string{"quick": "all token sequences of length <= 5 (78 lexemes) the reference grammar derives; operator ladders with <= 3 arbitrary binary operators over 6 operand decorations (sign, call, index, parentheses, in-list); 28 seed programs plain and with one arbitrary corruption; layout: one arbitrary gap of 3 bytes over {space tab newline / NBSP} in 8 seed programs, with and without keyword synonyms",
+		Bounds: map[string]string{"quick": "all token sequences of length <= 5 (78 lexemes) the reference grammar derives; operator ladders with <= 3 arbitrary binary operators over 6 operand decorations (sign, call, index, parentheses, in-list); 34 seed programs plain and with one arbitrary corruption; layout: one arbitrary gap of 3 bytes over {space tab newline / NBSP} in 8 seed programs, with and without keyword synonyms",
 			"thorough": "length <= 6; ladders <= 5 operators; two corruptions; layout on all 20 seeds"},
 		Outside: []string{"programs longer/deeper than the bounds", "constructs deliberately not in the reference grammar (no claim either way): chained indexing a[1][2], a comma before summarize's by", "more than one non-canonical gap at a time"},
 		Stubs:   []string{tokStub, "layout family uses the real lexer (nothing stubbed)"},
@@ -170,20 +170,28 @@ func propSpecs() map[string]*PropSpec {
 		Quick:    c05(5, 1),
 		Thorough: c05(6, 2),
 		Covers:   []string{"compiled", "compile-error", "with-ctes"},
-		Bounds: map[string]string{"quick": "all compiling token sequences of length <= 5 over a 64-lexeme vocabulary (every operator word, generated subquery names as identifiers); 28 seed programs plain and with one arbitrary corruption; 6 name-collision shapes with arbitrary tokens in the name slots",
+		Bounds: map[string]string{"quick": "all compiling token sequences of length <= 5 over a 64-lexeme vocabulary (every operator word, generated subquery names as identifiers); 34 seed programs plain and with one arbitrary corruption; 6 name-collision shapes with arbitrary tokens in the name slots",
 			"thorough": "length <= 6; two corruptions"},
 		Outside: []string{"SQL validity beyond the statement grammar (types, unknown columns)", "pass-through function names that are SQL keywords (passed through by name by contract)", "two subqueries the user gave the same name with as"},
 		Stubs:   []string{tokStub},
 		Assume:  []string{"independent SQL lexers (standard and ClickHouse quoting) and statement parser in harness/h/sqllex.go, sqlparse.go"},
 	})
-	c04 := func(maxM int64, extra int64, extraPos []int64) []RunSpec {
+	c04 := func(maxM int64, extra int64, extraPos []int64, nlens int64) []RunSpec {
 		var r []RunSpec
+		const holes = 24
+		// framed long contents first (cheap), then every short content
+		for p := int64(0); p < holes; p++ {
+			r = append(r, rs("H_C04long", p, nlens))
+		}
 		for m := int64(1); m <= maxM; m++ {
-			for p := int64(0); p < 19; p++ {
+			for p := int64(0); p < holes; p++ {
+				if p >= 19 && m > 2 {
+					continue // the added contexts: <= 2 arbitrary bytes plus the long contents
+				}
 				r = append(r, rs("H_C04", p, m))
 			}
 		}
-		for p := int64(0); p < 19; p++ {
+		for p := int64(0); p < holes; p++ {
 			r = append(r, rs("H_C04dict", p))
 		}
 		for _, p := range extraPos {
@@ -195,12 +203,12 @@ func propSpecs() map[string]*PropSpec {
 	}
 	add(&PropSpec{
 		ID: "C04", Title: "literals and names are transmitted as data, never as SQL syntax",
-		Quick:    c04(3, 4, []int64{0, 6}),
-		Thorough: c04(4, 5, []int64{0, 1, 6, 13, 14, 18}),
-		Covers:   []string{"content-admitted", "compiled", "decoded"},
-		Bounds: map[string]string{"quick": "19 content positions (strings in where/in/call/let/render value; backtick names as table, join table, column, project/extend/summarize alias, as name, chart type, render property, qualified part; unquoted identifier; number; implicit column name) x every content of <= 3 bytes (full byte range for quoted kinds) admitted by the real lexer inside that one token; <= 4 bytes at two positions; 19 dictionary contents (true, null, count, $left, SQL fragments, ...) at every quoted position",
-			"thorough": "<= 4 bytes everywhere, <= 5 at six positions"},
-		Outside: []string{"contents longer than the bound (the emitters are byte-wise loops without cross-byte state; argued, not part of the bounded claim)", "decoding under standard-SQL rules of values containing backslashes (structure is required under both lexers, value fidelity under ClickHouse rules)"},
+		Quick:    c04(3, 4, []int64{0, 6}, 37),
+		Thorough: c04(4, 5, []int64{0, 1, 6, 13, 14, 18}, 45),
+		Covers:   []string{"content-admitted", "compiled", "decoded", "long-content", "reference-value", "number-value-checked"},
+		Bounds: map[string]string{"quick": "24 content positions (the 19 listed next, plus: as-name inside a join's right side and before a later join, number under a sign, number as row count, sort key name; these five with <= 2 arbitrary bytes) and framed long contents at every position (two arbitrary bytes around a run of 'a' of length 0..20, 30..33, 62..65, 126..129, 254..257; numbers: the boundary families of C09 with runs 0..20); values are compared with the reference token language's value, not the lexer's; 19 content positions (strings in where/in/call/let/render value; backtick names as table, join table, column, project/extend/summarize alias, as name, chart type, render property, qualified part; unquoted identifier; number; implicit column name) x every content of <= 3 bytes (full byte range for quoted kinds) admitted by the real lexer inside that one token; <= 4 bytes at two positions; 19 dictionary contents (true, null, count, $left, SQL fragments, ...) at every quoted position",
+			"thorough": "<= 4 bytes everywhere, <= 5 at six positions; long contents also at 1022..1025 and 4094..4097 bytes"},
+		Outside: []string{"contents between the short bound and the framed long families (arbitrary bytes in the middle of a long content)", "decoding under standard-SQL rules of values containing backslashes (structure is required under both lexers, value fidelity under ClickHouse rules)"},
 		Stubs:   []string{"nothing stubbed: real Scan, Parse, Compile on symbolic bytes"},
 		Assume:  []string{"two independent SQL lexers (harness/h/sqllex.go); ClickHouse backslash-escape rules as transcribed there"},
 	})
@@ -264,10 +272,10 @@ func propSpecs() map[string]*PropSpec {
 	})
 	add(&PropSpec{
 		ID: "C16", Title: "the command-line tool compiles exactly the statements it is given", CLI: true,
-		Quick:    []RunSpec{rs("H_C16", 1, 0), rs("H_C16", 2, 0), rs("H_C16multi"), rs("H_C16multifail"), {Harness: "H_C16line5k", Budget: 80000000}, {Harness: "H_C16long", Budget: 80000000}},
-		Thorough: []RunSpec{rs("H_C16", 1, 0), rs("H_C16", 2, 0), rs("H_C16", 3, 1), rs("H_C16multi"), rs("H_C16multifail"), {Harness: "H_C16line5k", Budget: 80000000}, {Harness: "H_C16long", Budget: 80000000}},
-		Covers:   []string{"some-output", "some-statement-failed", "unterminated-final", "read-failure", "multi", "multi-read-failure", "line-5k", "long-line"},
-		Bounds: map[string]string{"quick": "scripts of <= 2 statement slots (9 templates: good/bad/shadowing lets, queries with and without lets, failing query, comment) x 4 separators x line break inside a statement x terminated or not x trailing newline x two read-chunk regimes x read failure at an arbitrary offset; three input files, also with a read failure at an arbitrary offset of any of them; a script with a 9 KB line (must compile); one line of 70 KB",
+		Quick:    []RunSpec{rs("H_C16", 1, 0), rs("H_C16", 2, 0), rs("H_C16", 1, 2), rs("H_C16", 2, 2), rs("H_C16multi"), rs("H_C16multifail"), {Harness: "H_C16line5k", Budget: 80000000}, {Harness: "H_C16long", Budget: 80000000}},
+		Thorough: []RunSpec{rs("H_C16", 1, 0), rs("H_C16", 2, 0), rs("H_C16", 1, 2), rs("H_C16", 2, 2), rs("H_C16", 3, 1), rs("H_C16", 3, 2), rs("H_C16multi"), rs("H_C16multifail"), {Harness: "H_C16line5k", Budget: 80000000}, {Harness: "H_C16long", Budget: 80000000}},
+		Covers:   []string{"some-output", "some-statement-failed", "unterminated-final", "read-failure", "multi", "multi-read-failure", "line-5k", "long-line", "literal-templates"},
+		Bounds: map[string]string{"quick": "scripts of <= 2 statement slots (9 templates: good/bad/shadowing lets, queries with and without lets, failing query, comment) x 4 separators x line break inside a statement x terminated or not x trailing newline x two read-chunk regimes x read failure at an arbitrary offset (then: non-zero status, the SQL of every statement whose line was read completely is on standard output, and standard output is a prefix of the statements' SQL); scripts of <= 2 slots over 9 templates with comment openers and semicolons inside string literals and quoted identifiers, trailing comments after a let or query (one chunk regime, no read failure); three input files, also with a read failure at an arbitrary offset of any of them; a script with a 9 KB line (must compile); one line of 70 KB",
 			"thorough": "<= 3 statement slots (three-statement scripts without read failure and with one chunk regime)"},
 		Outside: []string{"main, cobra flag parsing, os.Open/Create, -o, the terminal probe and the mapping of run's error to the exit status (I/O behind os: not encodable; four lines, read)", "an empty piece between two semicolons and an unterminated let at end of input (don't-care: the statement leaves them open)"},
 		Stubs:   []string{"input = harness io.Reader with selector-chosen chunking and failure; output = strings.Builder (engine model); bufio.Scanner interpreted from its source; bytes.IndexByte modelled"},
@@ -312,11 +320,11 @@ func propSpecs() map[string]*PropSpec {
 	big := func(h string, args ...int64) RunSpec { return RunSpec{Harness: h, Args: args, Budget: 10000000} }
 	add(&PropSpec{
 		ID: "C02", Title: "tabular operators take effect strictly in pipeline order",
-		Quick:    []RunSpec{big("H_C02", 1, 0), big("H_C02", 1, 2), big("H_C02", 2, 1), big("H_C02", 2, 2), big("H_C02", 3, 1), big("H_C02limits", 2), big("H_C02limits", 3)},
-		Thorough: []RunSpec{big("H_C02", 1, 0), big("H_C02", 1, 3), big("H_C02", 2, 1), big("H_C02", 2, 2), big("H_C02", 2, 3), big("H_C02", 3, 1), big("H_C02", 3, 2), big("H_C02", 4, 1), big("H_C02limits", 2), big("H_C02limits", 3), big("H_C02limits", 4)},
-		Covers:   []string{"compiled", "results-compared", "non-empty-result", "with-ctes"},
-		Bounds: map[string]string{"quick": "every well-typed pipeline of <= 2 operators from 25 templates (where/filter, project, extend named and unnamed, summarize with and without keys, sort/order with every direction/nulls form, take/limit incl. 0, top, count, as, render with and without properties) on every table T(a,b) of <= 2 rows of nullable integers in {0,1,2}; <= 3 operators on every 1-row table; the empty table for single operators; sequences of <= 3 row limits (literals of different digit counts, leading zeros, top) on every 3-row table",
-			"thorough": "<= 3 operators on <= 2 rows, <= 2 operators on 3 rows, 4 operators on 1 row"},
+		Quick:    []RunSpec{big("H_C02", 1, 0), big("H_C02", 1, 2), big("H_C02", 2, 1), big("H_C02", 2, 2), big("H_C02", 3, 1), big("H_C02mix", 3, 2), big("H_C02limits", 2), big("H_C02limits", 3)},
+		Thorough: []RunSpec{big("H_C02", 1, 0), big("H_C02", 1, 3), big("H_C02", 2, 1), big("H_C02", 2, 2), big("H_C02", 2, 3), big("H_C02", 3, 1), big("H_C02", 3, 2), big("H_C02", 4, 1), big("H_C02mix", 3, 2), big("H_C02mix", 3, 3), big("H_C02limits", 2), big("H_C02limits", 3), big("H_C02limits", 4)},
+		Covers:   []string{"compiled", "results-compared", "non-empty-result", "with-ctes", "mix-checked"},
+		Bounds: map[string]string{"quick": "every well-typed sequence of 3 operators over 12 templates (filters on two columns, take 1, limit 2, two sorts, top, project, summarize, extend, count, as) on every 2-row table; pairs of row limits including literals 2^32+1, 2^63, 2^64 and hexadecimal; every well-typed pipeline of <= 2 operators from 31 templates (repeated sort keys, where/filter, project, extend named and unnamed, summarize with and without keys, sort/order with every direction/nulls form, take/limit incl. 0, top, count, as, render with and without properties) on every table T(a,b) of <= 2 rows of nullable integers in {0,1,2}; <= 3 operators on every 1-row table; the empty table for single operators; sequences of <= 3 row limits (literals of different digit counts, leading zeros, top) on every 3-row table",
+			"thorough": "<= 3 operators on <= 2 rows, <= 2 operators on 3 rows, 4 operators on 1 row; the 12-template triples on 3-row tables"},
 		Outside: []string{"ClickHouse's actual executor: both sides are evaluated by reference evaluators with ordered-list semantics (every SELECT preserves its input order unless it has ORDER BY, groups in order of first appearance)", "aliases that shadow an existing column inside one SELECT (programs use fresh names)", "names of columns the program does not state (count, unnamed extend) are compared by position only", "tables wider than 2 columns, values outside {NULL,0,1,2}"},
 		Stubs:   []string{"nothing stubbed in the code under test (real lexer, parser, compiler on concrete programs drawn by selectors); cell values are symbolic"},
 		Assume:  []string{"reference evaluators harness/h/pipeeval.go (PQL semantics as stated in the property) and sqleval.go (SQL)"},
@@ -334,7 +342,7 @@ func propSpecs() map[string]*PropSpec {
 	})
 	seeds13 := func(n int64) []RunSpec {
 		var r []RunSpec
-		for i := int64(0); i < 28; i++ {
+		for i := int64(0); i < 34; i++ {
 			r = append(r, rs("H_C13seed", i, n))
 		}
 		return r
@@ -344,7 +352,7 @@ func propSpecs() map[string]*PropSpec {
 		Quick:    append(append([]RunSpec{rs("H_C13a", 1, 0), rs("H_C13a", 2, 0), rs("H_C13a", 3, 5)}, tokRuns("H_C13b", 5, 0)...), seeds13(1)...),
 		Thorough: append(append(append([]RunSpec{rs("H_C13a", 1, 0), rs("H_C13a", 2, 0), rs("H_C13a", 3, 0), rs("H_C13a", 5, 5)}, tokRuns("H_C13b", 6, 0)...), seeds13(1)...), seeds13(2)...),
 		Covers:   []string{"accepted", "rejected", "breaks-rule", "keeps-rules", "compiled", "compile-error"},
-		Bounds: map[string]string{"quick": "either/or: all byte strings of length <= 2, <= 3 focused, 5 parameter maps; exactly-when: all token sequences of length <= 5 over the full vocabulary and 28 seed programs (calls, joins, lets at depth) with one arbitrary corruption",
+		Bounds: map[string]string{"quick": "either/or: all byte strings of length <= 2, <= 3 focused, 5 parameter maps; exactly-when: all token sequences of length <= 5 over the full vocabulary and 34 seed programs (calls, joins, lets at depth; expression constructs in every operator's argument positions) with one arbitrary corruption",
 			"thorough": "bytes <= 3 (<= 5 focused); token sequences <= 6; seeds with one and two corruptions"},
 		Outside: []string{"render property values (not an expression position of the rule list)", "parameter maps in the exactly-when part (covered by C06)", "programs beyond the bounds"},
 		Stubs:   []string{tokStub},
